@@ -72,11 +72,35 @@ def _builders(ctx, repo):
         ctx.check(both and neither, "R-SIG", f"{kind}: dcop and lists are exclusive, and lists come together", f, f.node, "")
     for kind in ("hyper", "ordered"):
         f = repo.func(MODS[kind], "build_computation_graph")
-        loops = [l for l in ast.walk(f.node) if isinstance(l, ast.For) and norm(l.iter) in ("dcop.variables.values()", "variables")]
-        ctx.check(len(loops) == 2, "R-ONCE", f"{kind}: one loop over the variables on each branch (dcop / lists)", f, f.node, f"{len(loops)} loops found")
-        for l in loops:
+        # by cases on where the variables come from (a dcop / explicit lists, valid arguments): each case runs exactly one loop over the variables,
+        # whether the two cases have a loop each or share one after binding `variables` / `constraints`
+        from ..facts import exec_under
+        body_ = [s_ for s_ in f.node.body if not (isinstance(s_, ast.Expr) and isinstance(s_.value, ast.Constant))]
+        for src in ("dcop", "lists"):
+            def atom(e, src=src):
+                t = norm(e)
+                if t == "dcop is not None":
+                    return src == "dcop"
+                if t == "dcop is None":
+                    return src != "dcop"
+                if t in ("constraints or variables is not None", "constraints is None or variables is None", "variables is None or constraints is None"):
+                    return False
+                return None
+            eff, k = exec_under(body_, atom, opaque=True)
+            loops = [x for x in eff if isinstance(x, ast.For)]
+            env = {}
+            for x in eff:
+                if isinstance(x, ast.For):
+                    break
+                if isinstance(x, ast.Assign) and len(x.targets) == 1 and isinstance(x.targets[0], ast.Name):
+                    env[x.targets[0].id] = norm(x.value)
+            want_v, want_c = ("dcop.variables.values()", "dcop.constraints.values()") if src == "dcop" else ("variables", "constraints")
+            ok1 = k == "return" and len(loops) == 1 and env.get(norm(loops[0].iter), norm(loops[0].iter)) == want_v
+            ctx.check(ok1, "R-ONCE", f"{kind}: one loop over the variables on each branch (dcop / lists)", f, loops[0] if loops else f.node, f"source {src}: {len(loops)} loops, outcome {k}")
+            if not ok1:
+                continue
+            l = loops[0]
             v = norm(l.target)
-            allc = "dcop.constraints.values()" if norm(l.iter).startswith("dcop") else "constraints"
             o = count_paths(l.body, lambda s: 1 if isinstance(s, ast.Expr) and isinstance(s.value, ast.Call) and norm(s.value.func) == "computations.append" else 0)
             ok = o.k == {"fall": (1, 1)}
             app = [s.value for s in l.body if isinstance(s, ast.Expr) and isinstance(s.value, ast.Call) and norm(s.value.func) == "computations.append"]
@@ -84,8 +108,9 @@ def _builders(ctx, repo):
                 node = app[0].args[0]
                 ok = isinstance(node, ast.Call) and call_name(node) == "VariableComputationNode" and norm(node.args[0]) == v
                 dep = [s.value for s in l.body if isinstance(s, ast.Assign) and len(node.args) > 1 and norm(s.targets[0]) == norm(node.args[1])]
-                ok = ok and len(dep) == 1 and norm(dep[0]) == f"find_dependent_relations({v}, {allc})"
-            ctx.check(ok, "R-ONCE", f"{kind}: each variable of `{norm(l.iter)}` gets exactly one node carrying its dependent constraints among {allc}", f, l,
+                ok = ok and len(dep) == 1 and isinstance(dep[0], ast.Call) and call_name(dep[0]) == "find_dependent_relations" and len(dep[0].args) == 2 and norm(dep[0].args[0]) == v \
+                    and env.get(norm(dep[0].args[1]), norm(dep[0].args[1])) == want_c
+            ctx.check(ok, "R-ONCE", f"{kind}: each variable of `{want_v}` gets exactly one node carrying its dependent constraints among {want_c}", f, l,
                       "a variable skipped, doubled, or given constraints filtered from a subset breaks 'one node per variable listing exactly the constraints containing it'")
         r = [x for x in walk_no_nested(f.node) if isinstance(x, ast.Return)]
         ctx.check(len(r) == 1 and isinstance(r[0].value, ast.Call) and norm(r[0].value.args[0]) == "computations", "R-ONCE", f"{kind}: the graph is built from all created nodes", f, r[0] if r else f.node, "")
